@@ -80,6 +80,8 @@ def add_gradients(
             fall_time=grads[0].fall_time,
             delay=grads[0].delay,
             system=system,
+            max_grad=max_grad,
+            max_slew=max_slew,
         )
         if trace_enabled():
             grad.trace = trace()
@@ -151,7 +153,14 @@ def add_gradients(
 
             amplitudes += np.interp(xp=tt, fp=waveform, x=times, left=0, right=0)
 
-        grad = make_extended_trapezoid(channel=channel, amplitudes=amplitudes, times=times, system=system)
+        grad = make_extended_trapezoid(
+            channel=channel,
+            amplitudes=amplitudes,
+            times=times,
+            system=system,
+            max_grad=max_grad,
+            max_slew=max_slew,
+        )
 
         if trace_enabled():
             grad.trace = trace()
